@@ -15,11 +15,17 @@ import json, os, re, subprocess, sys, time, glob, hashlib, shutil, signal
 from concurrent.futures import ThreadPoolExecutor
 
 ROOT = os.path.dirname(os.path.dirname(os.path.abspath(__file__)))
-REPO = "/repo"
-WORK = os.path.join(ROOT, "work")
+# The registered checks always build from /repo's working tree.  For experiments (seeded mutants in scratch
+# worktrees, several at a time) VERIF_REPO=<dir> redirects the engine source, the build output, the work directory
+# and the evidence directory to that tree, leaving /repo, /verif/work and /verif/evidence untouched.
+REPO = os.environ.get("VERIF_REPO", "/repo").rstrip("/")
+SCRATCH = REPO != "/repo"
+WORK = os.path.join(REPO, "verif-work") if SCRATCH else os.path.join(ROOT, "work")
+EVIDENCE = os.path.join(WORK, "evidence") if SCRATCH else os.path.join(ROOT, "evidence")
 GEN = os.path.join(ROOT, "gen")
 HARNESS = os.path.join(ROOT, "harness")
-BIN = os.path.join(HARNESS, "target", "debug", "icyverif")
+TARGET = os.path.join(REPO, "verif-target") if SCRATCH else os.path.join(HARNESS, "target")
+BIN = os.path.join(TARGET, "debug", "icyverif")
 JAR = "/opt/veriftools/tla/tla2tools.jar:/opt/veriftools/tla/CommunityModules-deps.jar"
 LIBDIR = os.path.join(ROOT, "spec", "lib")
 
@@ -48,10 +54,14 @@ def build_harness():
         shutil.copy(os.path.join(REPO, "Cargo.lock"), lock)
     t0 = time.time()
     env = {"CARGO_NET_OFFLINE": "true"}
-    rc, out = sh(["cargo", "build", "--offline"], cwd=HARNESS, timeout=1800, env=env)
+    cmd = ["cargo", "build", "--offline"]
+    if SCRATCH:
+        cmd += ["--config", f'paths=["{REPO}"]']
+        env["CARGO_TARGET_DIR"] = TARGET
+    rc, out = sh(cmd, cwd=HARNESS, timeout=1800, env=env)
     if rc != 0 and "Cargo.lock" in out and ("needs to be updated" in out or "failed to select a version" in out):
         shutil.copy(os.path.join(REPO, "Cargo.lock"), lock)
-        rc, out = sh(["cargo", "build", "--offline"], cwd=HARNESS, timeout=1800, env=env)
+        rc, out = sh(cmd, cwd=HARNESS, timeout=1800, env=env)
     if rc != 0:
         log(out[-6000:])
         raise ToolError("cargo build of the harness failed (does /repo compile?)")
@@ -168,7 +178,8 @@ def validate_traces(spec_dir, module, cfg, paths, procs=8, timeout=1800, xmx="3g
 def drive(args, timeout=1800, allow_fail=False):
     t0 = time.time()
     try:
-        p = subprocess.run([BIN] + [str(a) for a in args], cwd=ROOT, timeout=timeout, stdout=subprocess.DEVNULL, stderr=subprocess.PIPE, text=True, errors="replace")
+        p = subprocess.run([BIN] + [str(a) for a in args], cwd=ROOT, timeout=timeout, stdout=subprocess.DEVNULL, stderr=subprocess.PIPE, text=True, errors="replace",
+                           env=dict(os.environ, VERIF_REPO=REPO))
     except subprocess.TimeoutExpired:
         raise ToolError(f"driver {args[0]} timed out after {timeout}s")
     if p.returncode != 0 and not allow_fail:
@@ -362,8 +373,8 @@ class Check:
         cov.update({k: v for k, v in self.extra.items() if k != "distinct_nontrivial"})
         ev = {"property_id": self.pid, "tier": self.tier if self.tier in ("quick", "thorough") else "quick", "seed": self.seed, "level": self.level,
               "coverage": cov, "assumptions": self.assumptions, "wall_s": round(time.time() - self.t0, 1), "violations": n_new}
-        os.makedirs(os.path.join(ROOT, "evidence"), exist_ok=True)
-        with open(os.path.join(ROOT, "evidence", f"{self.pid}.json"), "w") as f:
+        os.makedirs(EVIDENCE, exist_ok=True)
+        with open(os.path.join(EVIDENCE, f"{self.pid}.json"), "w") as f:
             json.dump(ev, f, indent=1)
 
 
